@@ -796,6 +796,237 @@ fn t_step_at_2() {
 fn t_step_at_3() {
     step_transition(3);
 }
+fn pass_transition(step: usize) {
+    let side: bool = kani::any();
+    let pb = any_wf_board();
+    let st = any_status();
+    kani::assume(!matches!(st, PushPullState::MustCompletePush(_, _))); // a pass is only offered when no push is pending (c06_can_pass)
+    let (hash, init, mn): (u64, u64, usize) = (kani::any(), kani::any(), kani::any());
+    kani::assume(mn < usize::MAX); // known finding D4
+    let trapped: bool = kani::any();
+    let (hist, hist_len, _) = any_short_history();
+    let playphase = PlayPhase::new(zob(init), hist, prev_boards(step), st, trapped);
+    let gs = GameState::new(side, mn, Phase::PlayPhase(playphase), PieceBoard(pb.clone()), zob(hash));
+    kani::cover!(trapped);
+    kani::cover!(!trapped && hist_len == 2);
+
+    let ns = gs.take_action(&Action::Pass);
+
+    assert!(same_board(ns.piece_board(), &pb), "C02: a pass leaves the board unchanged");
+    assert!(ns.is_p1_turn_to_move() == !side, "C03: other player on move after a pass");
+    assert!(ns.current_step() == 0, "C03: step 0 after a pass");
+    assert!(ns.move_number() == mn + (if side { 0 } else { 1 }), "C03: move number grows exactly when Silver's turn ends");
+    let np = ns.unwrap_play_phase();
+    assert!(np.push_pull_state() == PushPullState::None, "C12/C03: nothing pending at turn start");
+    assert!(np.previous_piece_boards().len() == 0, "C14/C03: fresh per-turn record");
+    let want_hash = hash ^ PLAYER_TO_MOVE ^ STEP_VALUES[step] ^ STEP_VALUES[0];
+    assert!(raw(&ns.hash) == want_hash, "C08: hash after a pass");
+    assert!(raw(&np.initial_hash_of_move) == want_hash, "C05/C08: new turn-start hash");
+    let hh = np.hash_history();
+    assert!(hh.len() == (if trapped { 0 } else { hist_len }) + 1, "C05: history appended at turn end (after a reset if a capture happened this turn)");
+    assert!(hh.head().map(|z| raw(z)) == Some(want_hash), "C05/C08: the recorded entry is the new turn-start hash");
+    assert!(!np.piece_trapped_this_turn(), "C05: capture flag reset at turn start");
+}
+// @obl props=C02,C03,C05,C08,C12,C14,C19 tier=quick kind=harness-contract mem=4 est=40
+// @fns GameState::take_action GameState::pass Zobrist::pass PlayPhase::initial List::append List::clone
+// @clause pass at step 1, 2 and 3 (three obligations). requires board_wf, no push pending, move_number < usize::MAX. ensures board unchanged (all eight words); other side, step 0, status None, empty record; move number +1 iff Silver passed; hash' == hash ^ PLAYER_TO_MOVE ^ STEP[step] ^ STEP[0] == initial hash'; history == (capture this turn ? [] : old) ++ [hash']; flag reset
+#[kani::proof]
+#[kani::unwind(6)]
+fn t_pass_at_1() {
+    pass_transition(1);
+}
+// @obl props=C02,C03,C05,C08,C19 tier=quick kind=harness-contract mem=4 est=40
+// @fns GameState::take_action GameState::pass
+// @clause pass at step 2 (same postcondition)
+#[kani::proof]
+#[kani::unwind(6)]
+fn t_pass_at_2() {
+    pass_transition(2);
+}
+// @obl props=C02,C03,C05,C08,C19 tier=quick kind=harness-contract mem=4 est=40
+// @fns GameState::take_action GameState::pass
+// @clause pass at step 3 (same postcondition)
+#[kani::proof]
+#[kani::unwind(6)]
+fn t_pass_at_3() {
+    pass_transition(3);
+}
+// @obl props=C03,C19 tier=quick kind=harness-contract mem=4 est=40
+// @known D4
+// @fns GameState::move_piece GameState::pass
+// @clause the same transitions WITHOUT the precondition move_number < usize::MAX: expected to fail only with `attempt to add with overflow` at the move-number increment (known finding D4); any other failed check here is a fresh violation
+#[kani::proof]
+#[kani::unwind(6)]
+#[kani::stub(crate::zobrist::piece_board_value, pbv_ghost)]
+fn c03_move_number_range() {
+    let side: bool = kani::any();
+    let pb = any_wf_board();
+    let mn: usize = kani::any();
+    let playphase = PlayPhase::new(zob(kani::any()), List::new(), prev_boards(3), PushPullState::None, false);
+    let gs = GameState::new(side, mn, Phase::PlayPhase(playphase), PieceBoard(pb.clone()), zob(kani::any()));
+    kani::cover!(mn == usize::MAX);
+    let a = gs.take_action(&Action::Pass);
+    let b = gs.take_action(&mv(any_sq(), any_direction()));
+    assert!(a.move_number() >= mn && b.move_number() >= mn);
+}
+
+// ===========================================================================
+// C14  piece_board_for_step
+// ===========================================================================
+// @obl props=C14,C19 tier=quick kind=harness-contract mem=4 est=40
+// @fns GameState::piece_board_for_step GameState::current_step GameState::piece_board PlayPhase::step
+// @clause forall play states with k = 0..3 steps made and i <= k: piece_board_for_step(i) is the i-th recorded board for i < k and the current board for i == k (same eight words); no panic / out-of-bounds for i <= k
+#[kani::proof]
+#[kani::unwind(6)]
+fn c14_board_for_step() {
+    board_for_step(0);
+    board_for_step(1);
+    board_for_step(2);
+    board_for_step(3);
+}
+fn board_for_step(step: usize) {
+    let pb = any_board_raw();
+    let prev = prev_boards(step);
+    let prev_copy: Vec<PieceBoardState> = prev.iter().map(|b| b.0.clone()).collect();
+    let playphase = PlayPhase::new(zob(kani::any()), List::new(), prev, any_status(), kani::any());
+    let gs = GameState::new(kani::any(), 2, Phase::PlayPhase(playphase), PieceBoard(pb.clone()), zob(kani::any()));
+    assert!(gs.current_step() == step, "C03/C14: the step counter is the length of the per-turn record");
+    kani::cover!(true);
+    let mut i = 0;
+    while i < 4 {
+        if i <= step {
+            let r = gs.piece_board_for_step(i);
+            if i == step {
+                assert!(same_board(r, &pb), "C14: board of the current step is the current board");
+            } else {
+                assert!(same_board(r, &prev_copy[i]), "C14: board of an earlier step is the recorded one");
+            }
+        }
+        i += 1;
+    }
+}
+
+// ===========================================================================
+// C13  trapped_animal_for_action
+// ===========================================================================
+// @obl props=C13,C19 tier=quick kind=harness-contract mem=3 est=40
+// @fns GameState::trapped_animal_for_action PieceBoard::move_piece PieceBoardState::trapped_piece_bits Square::from_bit_board PieceBoardState::piece_type_at_square PieceBoardState::bits_for_piece PieceBoard::take_action
+// @clause requires legal_board, step onto an empty neighbour of an occupied square. ensures preview == None <=> PieceBoard::take_action's capture flag is false <=> nothing removed; otherwise preview == (sq,p,g) where (p,g) is the piece standing on sq after the move and sq is the one and only square emptied by the capture; at most one piece is removed per step; Place/Pass => None; no panic (unwrap, from_bit_board on one bit)
+#[kani::proof]
+fn c13_preview() {
+    let pb = any_legal_board();
+    let i = any_sq();
+    let d = any_direction();
+    kani::assume(at(&pb, i).is_some());
+    let dst = match nbr(i, d) {
+        Some(j) => j,
+        None => {
+            kani::assume(false);
+            0
+        }
+    };
+    kani::assume(at(&pb, dst).is_none());
+    let q = any_sq();
+    // the preview never looks at the phase: run it on a setup-phase wrapper (no heap)
+    let gs = GameState::new(kani::any(), 2, Phase::PlacePhase, PieceBoard(pb.clone()), Zobrist::initial());
+    kani::cover!(captures_any(&pb, i, dst));
+    kani::cover!(captured_at(&pb, i, dst, 42) && at(&pb, 42).map_or(false, |(_, g)| !g), "Silver piece captured on c3");
+    let preview = gs.trapped_animal_for_action(&mv(i, d));
+    let (nb, flag) = PieceBoard(pb.clone()).take_action(&mv(i, d));
+    assert!(preview.is_none() == !flag, "C13: preview is None exactly when applying the step removes nothing");
+    assert!(flag == captures_any(&pb, i, dst));
+    match preview {
+        None => {
+            assert!(at(&nb, q) == after_move_at(&pb, i, dst, q), "C13: nothing removed");
+        }
+        Some((s, p, g)) => {
+            let si = s.index() as u8;
+            assert!(si < 64 && is_trap(si), "C13: reported square is a trap");
+            assert!(after_move_at(&pb, i, dst, si) == Some((p, g)), "C13: reported type and owner are those of the piece removed");
+            assert!(at(&nb, si).is_none(), "C13: the reported piece is gone after the step");
+            assert!(q == si || at(&nb, q) == after_move_at(&pb, i, dst, q), "C13: it is the only piece removed (at most one capture per step)");
+        }
+    }
+    assert!(gs.trapped_animal_for_action(&Action::Pass).is_none() && gs.trapped_animal_for_action(&Action::Place(any_piece())).is_none(), "C13: Pass/Place capture nothing");
+}
+// ===========================================================================
+// C09  setup phase: placement_bit / valid_placement / place
+// ===========================================================================
+pub fn action_list_eq(v: &[Action], want: &[Option<Action>; 6]) -> bool {
+    // `want` with the None entries squeezed out must equal v
+    let mut k = 0;
+    let mut ok = true;
+    let mut j = 0;
+    while j < 6 {
+        if let Some(a) = want[j] {
+            ok = ok && k < v.len() && v[k] == a;
+            k += 1;
+        }
+        j += 1;
+    }
+    ok && k == v.len()
+}
+// @obl props=C09,C07,C10,C19 tier=quick kind=harness-contract mem=6 est=150 timeout=1500
+// @fns GameState::place GameState::valid_placement GameState::valid_actions_ PieceBoardState::placement_bit first_set_bit single_bit_index_u64 PieceBoard::new Zobrist::place_piece GameState::curr_player_piece_mask Square::from_bit_board GameState::is_terminal GameState::is_play_phase
+// @clause requires wf_place(board,n) for a symbolic n in 0..31 (every prefix of every placement order), mover == (n<16). ensures valid_actions() == [Place(t) for t in E,M,H,D,C,R with count(t,mover) < complement(t)], non-empty; is_terminal == None; for every offered t: place puts (t, mover) on the n-th home square (Gold a2..h2,a1..h1; Silver a8..h8,a7..h7), changes nothing else, keeps wf_place(n+1); Silver on move after the 16th, play phase/Gold/move 2/step 0/nothing pending/history == [hash'] after the 32nd, else still setup with move number 1; hash' == hash ^ piece_value(target,t,mover) ^ (PLAYER_TO_MOVE at the 16th and 32nd) ^ (STEP[0] at the 32nd); no panic (first_set_bit(0) unreachable)
+#[kani::proof]
+#[kani::unwind(8)]
+fn c09_setup() {
+    let pb = any_board_raw();
+    let n: u8 = kani::any();
+    kani::assume(n <= 31);
+    kani::assume(wf_place(&pb, n));
+    let side = place_mover(n);
+    let hash: u64 = kani::any();
+    let gs = GameState::new(side, 1, Phase::PlacePhase, PieceBoard(pb.clone()), zob(hash));
+    let q = any_sq();
+    kani::cover!(n == 0);
+    kani::cover!(n == 15);
+    kani::cover!(n == 31);
+
+    // offered placements
+    let acts = gs.valid_actions();
+    let off = |t: Piece| if count(&pb, t, side) < complement(t) { Some(Action::Place(t)) } else { None };
+    let want = [off(Piece::Elephant), off(Piece::Camel), off(Piece::Horse), off(Piece::Dog), off(Piece::Cat), off(Piece::Rabbit)];
+    assert!(action_list_eq(&acts, &want), "C09: offered placements == types below the full complement, in E,M,H,D,C,R order");
+    assert!(acts.len() >= 1, "C07: setup always has a placement to offer");
+    assert!(gs.is_terminal().is_none() && !gs.is_play_phase(), "C07/C04: no result during setup");
+    let same = gs.valid_actions_no_rep();
+    assert!(same.len() == acts.len(), "C06: repetition rules do not apply in setup");
+
+    // effect of an offered placement
+    let t = any_piece();
+    kani::assume(count(&pb, t, side) < complement(t));
+    let ns = gs.take_action(&Action::Place(t));
+    let nb = ns.piece_board();
+    let target = place_target(n);
+    assert!(at(nb, q) == (if q == target { Some((t, side)) } else { at(&pb, q) }), "C09: the piece goes to the next free home square, nothing else changes");
+    assert!(wf_place(nb, n + 1), "C09/C10: setup invariant preserved");
+    let piece_val = crate::zobrist::verif::pv(target, t, side);
+    if n + 1 == 32 {
+        assert!(ns.is_play_phase() && ns.is_p1_turn_to_move() && ns.move_number() == 2, "C09: play starts with Gold, move 2");
+        let np = ns.unwrap_play_phase();
+        assert!(ns.current_step() == 0 && np.push_pull_state() == PushPullState::None && !np.piece_trapped_this_turn(), "C09: step 0, nothing pending");
+        let want_hash = hash ^ piece_val ^ PLAYER_TO_MOVE ^ STEP_VALUES[0];
+        assert!(raw(&ns.hash) == want_hash, "C08: hash after the last placement");
+        assert!(raw(&np.initial_hash_of_move) == want_hash && np.hash_history().len() == 1 && np.hash_history().head().map(|z| raw(z)) == Some(want_hash), "C05/C08: history starts with the first play position");
+    } else {
+        assert!(!ns.is_play_phase() && ns.move_number() == 1, "C09: still setup, move 1");
+        assert!(ns.is_p1_turn_to_move() == place_mover(n + 1), "C09: Silver is on move after Gold's sixteenth placement");
+        let want_hash = hash ^ piece_val ^ (if n + 1 == 16 { PLAYER_TO_MOVE } else { 0 });
+        assert!(raw(&ns.hash) == want_hash, "C08: hash after a placement");
+    }
+}
+// @obl props=C09,C10,C19 tier=quick kind=harness-contract mem=2 est=5
+// @fns GameState::initial PieceBoard::initial Zobrist::initial
+// @clause GameState::initial(): empty board satisfying wf_place(0), Gold to move, move 1, setup phase, hash == INITIAL
+#[kani::proof]
+fn c09_initial() {
+    let gs = GameState::initial();
+    kani::cover!(true);
+    assert!(wf_place(gs.piece_board(), 0) && gs.is_p1_turn_to_move() && gs.move_number() == 1 && !gs.is_play_phase());
+    assert!(raw(&gs.hash) == INITIAL && gs.transposition_hash() == INITIAL);
+}
 // ===========================================================================
 // meta: the canary.  An `ensures` that is false on the real supported_pieces; it must FAIL.
 // If it ever passes, the pipeline is not checking anything and the whole run is UNDECIDED.
